@@ -41,11 +41,11 @@ var bodyPkgs = map[string]bool{
 	"strings": true, "strconv": true, "time": true, "unicode/utf8": true, "unicode": true, "errors": true, "math": true,
 	"github.com/google/fhir/go/proto/google/fhir/proto/r4/core/datatypes_go_proto": true,
 	"github.com/shopspring/decimal": true,
-	"net/url": true, "path": true,
+	"net/url": true, "path": true, "encoding/base64": true,
 }
 
 var execStdPkgs = map[string]bool{
-	"time": true, "net/url": true, "path": true,
+	"time": true, "net/url": true, "path": true, "encoding/base64": true,
 	"strings": true, "strconv": true, "unicode": true, "slices": true, "sort": true, "cmp": true,
 }
 
@@ -60,7 +60,7 @@ func (p *Program) isExecuted(pkgPath string) bool {
 
 // skipInit: packages whose init is not run (their globals are opaque).
 func (p *Program) skipInit(pkgPath string) bool {
-	if pkgPath == "github.com/shopspring/decimal" || pkgPath == "time" || pkgPath == "strconv" || pkgPath == "net/url" {
+	if pkgPath == "github.com/shopspring/decimal" || pkgPath == "time" || pkgPath == "strconv" || pkgPath == "net/url" || pkgPath == "encoding/base64" {
 		return false
 	}
 	if !strings.HasPrefix(pkgPath, RepoModule) {
